@@ -27,13 +27,18 @@ class Ty:
             return list(range(len(self.elems)))
         if self.kind == "dict":
             return list(self.elems)
+        if self.kind == "grid":
+            return [(0, 1), (1, 0)]  # tuple keys: g[0, 1]
         return []
 
     def at(self, k: Any) -> "Ty":
+        if self.kind == "grid":
+            return TERM_T
         return self.elems[k]
 
 
 TERM = Ty("term")
+TERM_T = TERM
 INT = Ty("int")
 DICT_T = Ty("dict", {"a": TERM, "b": Ty("list", [TERM, Ty("tup", [TERM, TERM])])})
 
@@ -90,6 +95,10 @@ def _is_int(t: Ty) -> bool:
     return t.kind == "int" and not t.none and not t.desc
 
 
+def _is_bool(t: Ty) -> bool:
+    return t.kind == "bool" and not t.none and not t.desc
+
+
 def _root(e: Any) -> Any:
     while e[0] == "i":
         e = e[1]
@@ -115,7 +124,8 @@ def _operand(draw: Any, env: Env, cx: Ctx, pred: Any = _is_value, const_pool: An
         cx.features.add("index-chain")
     elif _n_idx(e) == 1:
         cx.features.add("index")
-    if cx.bad_index and e[0] == "i" and not cx.features & {"bad-index"} and draw(st.sampled_from([True] + [False] * 11)):
+    if cx.bad_index and e[0] == "i" and not isinstance(e[2], (tuple, list)) and not cx.features & {"bad-index"} \
+            and draw(st.sampled_from([True] + [False] * 11)):
         # the user's own indexing mistake: a key the producer's value does not have.  Plain Python raises
         # KeyError / IndexError, so the DAG call must raise as well (it must not hand None to the consumer).
         e = ["i", e[1], "zz" if isinstance(e[2], str) else 7]
@@ -303,7 +313,7 @@ def rich_prog(
                 fn = draw(st.sampled_from(reusable))
                 cx.features.add("reuse")
             else:
-                kind = draw(st.sampled_from(["term", "term", "int", "tup", "dict", "id", "pack"] + (["str"] if seqop_w else [])))
+                kind = draw(st.sampled_from(["term", "term", "int", "tup", "dict", "id", "pack"] + (["str", "grid"] if seqop_w else [])))
                 if kind == "tup":
                     n = draw(st.integers(2, 3))
                     unp = n if (draw(st.booleans()) and not no_index) else None
@@ -355,6 +365,9 @@ def rich_prog(
                 t = Ty("dict", DICT_T.elems, none=maybe_none)
             elif kind == "str":
                 t = Ty("str", none=maybe_none)
+            elif kind == "grid":
+                t = Ty("grid", none=maybe_none)
+                cx.features.add("tuple-key-container")
             elif kind == "id":
                 t = Ty(tys[0].kind, tys[0].elems, none=tys[0].none or maybe_none)
             elif kind == "pack":
@@ -364,6 +377,28 @@ def rich_prog(
             else:
                 t = Ty("any", none=True)
             env.add(["v", o], t)
+        elif k == "op" and draw(st.integers(0, 3)) == 0:
+            # operators applied to run-time bools (results of comparisons): ~True is -2, True + True is 2 ...
+            if not env.leaves(_is_bool, depth=0) or draw(st.booleans()):
+                ia = draw(st.sampled_from(env.leaves(_is_int)))[0]
+                ib = draw(st.sampled_from(env.leaves(_is_int)))[0] if draw(st.booleans()) else ["c", draw(st.integers(1, 6))]
+                oc = out()
+                body.append({"k": "op", "op": draw(st.sampled_from(["lt", "le", "eq", "ne", "gt", "ge"])), "a": ia, "b": ib, "out": oc})
+                env.add(["v", oc], Ty("bool"))
+            bools = env.leaves(_is_bool, depth=0)
+            a, _ta = draw(st.sampled_from(bools))
+            opname = draw(st.sampled_from(["invert", "invert", "neg", "pos", "abs", "add", "mul", "and", "or", "xor", "eq", "ne", "sub"]))
+            o = out()
+            cx.features.update({"operator", "bool-operand"})
+            if opname in ("invert", "neg", "pos", "abs"):
+                body.append({"k": "op", "op": opname, "a": a, "b": None, "out": o})
+            else:
+                b = draw(st.sampled_from(bools))[0] if draw(st.booleans()) else ["c", draw(st.sampled_from([True, False, 1, 2, 5]))]
+                if b[0] == "c" and draw(st.booleans()):
+                    a, b = b, a
+                    cx.features.add("reflected")
+                body.append({"k": "op", "op": opname, "a": a, "b": b, "out": o})
+            env.add(["v", o], Ty("any"))
         elif k == "op":
             ints = env.leaves(_is_int)
             a, _ta = draw(st.sampled_from(ints))
@@ -386,8 +421,8 @@ def rich_prog(
                 a, b = b, a  # reflected form: constant on the left
                 cx.features.add("reflected")
             body.append({"k": "op", "op": opname, "a": a, "b": b, "out": o})
-            # results of arithmetic may be 0 / negative / float: not fed to further arithmetic
-            env.add(["v", o], Ty("any"))
+            # results of arithmetic may be 0 / negative / float: not fed to further arithmetic; comparisons give bools
+            env.add(["v", o], Ty("bool") if opname in ("lt", "le", "eq", "ne", "gt", "ge") else Ty("any"))
         elif k == "logic":
             opname = draw(st.sampled_from(["and_", "or_", "not_"]))
             n = 1 if opname == "not_" else 2
